@@ -3,7 +3,10 @@
    mode 0  geometry_from_meta / read_geometry / Reader.geometry
            [0; gen; enc; sort; split; n; shank_0; a_0; b_0; flag_0; ...]
            gen 0 NP1 | 1 NP2.1 | 2 NP2.4 | 3 NPultra ; enc 0 shank map | 1 geometry map | 2 no map
-           split = -1 (no NP2.4_shank key) or the shank
+           split = -1 (no NP2.4_shank key) or the shank; with enc = 2 (or n = 0) the slot carries the
+           nc argument instead (-1 = the default 384)
+           gen 3 with enc 1 (NPultra geometry map): the row column holds ROW6 = 6 * row (F-C08-b)
+           modes 1-3: a gen code outside 0..3 = a version value the code has no branch for -> [0]
            -> [1; n'; shank; col; row; flag; x; y; shift numerators; adc; ind; inds]   (each n' long)
               or [0] when the model returns None
    mode 1  trace_header(version, nshank) then optional split_trace_header(h, s)
@@ -24,6 +27,10 @@ Open Scope Z_scope.
 
 Definition dec_gen (z : Z) : gen :=
   if z =? 0 then NP1 else if z =? 1 then NP21 else if z =? 2 then NP24 else NPU.
+(* version arguments of the public neuropixel functions: codes 0..3 as above, anything else = a value the
+   code has no branch for (3, 0, 1.5, "3A", ...) *)
+Definition dec_gen_opt (z : Z) : option gen :=
+  if (0 <=? z) && (z <=? 3) then Some (dec_gen z) else None.
 
 Fixpoint dec_sites (n : nat) (l : list Z) : list site :=
   match n, l with
@@ -38,7 +45,9 @@ Definition run (inp : list Z) : list Z :=
   match inp with
   | 0 :: g :: e :: srt :: split :: n :: rest =>
       let sites := dec_sites (Z.to_nat n) rest in
-      let r := if (e =? 2) || (n =? 0) then geometry_default (dec_gen g)
+      let r := if (e =? 2) || (n =? 0)
+               then geometry_default_nc (dec_gen g) (if split <? 0 then NC else Z.to_nat split)
+               else if (g =? 3) && (e =? 1) then geometry_npu_geom sites (if split <? 0 then None else Some split) (srt =? 1)
                else geometry (dec_gen g) (if e =? 0 then ShankMap else GeomMap) sites
                              (if split <? 0 then None else Some split) (srt =? 1) in
       match r with
@@ -46,16 +55,17 @@ Definition run (inp : list Z) : list Z :=
       | None => [0]
       end
   | [1; g; nshank; s] =>
-      match trace_header (dec_gen g) nshank with
+      match trace_header_v (dec_gen_opt g) nshank with
       | Some t => 1 :: enc_geom (if s <? 0 then t else split_trace_header t s)
       | None => [0]
       end
   | [2; g; nc] =>
-      match adc_shifts (dec_gen g) (Z.to_nat nc) with
+      match adc_shifts_v (dec_gen_opt g) (Z.to_nat nc) with
       | Some (sh, adc) => 1 :: Z.of_nat (length sh) :: sh ++ adc
       | None => [0]
       end
   | 3 :: g :: n :: rest =>
+      if negb ((0 <=? g) && (g <=? 3)) then [0] else
       let gg := dec_gen g in
       let a := firstn (Z.to_nat n) rest in
       let b := firstn (Z.to_nat n) (skipn (Z.to_nat n) rest) in
